@@ -74,6 +74,40 @@ def same_meaning(f, g, seed, n=4):
     return None
 
 
+# ----------------------------------------------------------------------------- string constants
+SPECIAL_STRINGS = [
+    "two\nlines", "tab\there", "\r", "a\r\nb", "\x00", "\x01\x1f", "\x7f", "\x0c\x0b",            # control characters
+    "\u00e9", "\u00df", "\u6f22", "mix\u00e9\u6f22\u00df", "\u00a0", "\u2028", "\ufeff", "\u0085",  # non-ASCII, BMP
+    "\U0001F600", "\U00020000x", "\U0002FFFF",                                                    # outside the BMP
+    "back\\slash", "\\", "\\\\", "\\\"", "end\\",                                                 # backslashes
+    "\\u{61}", "\\u0061", "\\u{a}", "a\\u{61}b", "\\u{1F600}", "\\x41", "\\n", "\\t", "\\u{", "\\u{zz}",   # text that looks like an escape
+    '"', 'q"uo"te', '""', '"""', "|bar|", "(paren) ; semi", " lead", "trail ", "", "#b01", "12", "true",
+]
+
+
+def string_constants(f):
+    return set(n.constant_value() for n in tocoq.topo([f]) if n.is_string_constant())
+
+
+def string_formulas(env):
+    """Formulas around every special string constant: an equality, str.++ with sharing, nested
+    under quantifiers, several constants at once."""
+    from pysmt.typing import STRING, INT
+    m = env.formula_manager
+    s, t, i = m.Symbol("s", STRING), m.Symbol("t", STRING), m.Symbol("i", INT)
+    out = []
+    prev = m.String("a")
+    for v in SPECIAL_STRINGS:
+        c = m.String(v)
+        out.append(m.Equals(s, c))
+        out.append(m.Equals(m.StrConcat(s, c, t), m.StrConcat(c, prev, c)))
+        out.append(m.ForAll([s], m.Exists([t], m.Or(m.Equals(s, c), m.Not(m.StrContains(t, c)), m.StrPrefixOf(c, s)))))
+        out.append(m.And(m.Equals(m.StrLength(c), i), m.Equals(m.StrReplace(s, c, prev), m.StrCharAt(c, i)),
+                         m.Implies(m.StrSuffixOf(prev, c), m.Equals(m.StrIndexOf(c, prev, i), m.StrToInt(c)))))
+        prev = c
+    return out
+
+
 # ----------------------------------------------------------------------------- scripts
 def cmd_key(c, rename):
     def k(a):
@@ -249,15 +283,22 @@ def run(tier):
     n = 400 if tier == "quick" else 5000
     cases, hr_cases = [], []
     env = g = None
-    for i in range(n):
-        if i % 50 == 0:
-            env = Environment()
-            prefix = rnd.choice(["", "", "x y.", "A#", "q.", "v_"])
-            g = FormulaGen(env, rnd, Config(), prefix=prefix)
-        t = rnd.choice(g.types) if rnd.random() < 0.4 else g.types[0]
-        f = g.gen(t, rnd.randint(1, 4))
-        if not env.stc.get_type(f).is_bool_type():
-            f = env.formula_manager.Equals(f, f) if rnd.random() < 0.3 else env.formula_manager.EqualsOrIff(f, g.gen(env.stc.get_type(f), 1))
+    senv = Environment()
+    special = string_formulas(senv)
+    stats["string_constant_formulas"] = len(special)
+    for i0 in range(n + len(special)):
+        i = i0 - len(special)
+        if i < 0:
+            env, f = senv, special[i0]
+        else:
+            if i % 50 == 0:
+                env = Environment()
+                prefix = rnd.choice(["", "", "x y.", "A#", "q.", "v_"])
+                g = FormulaGen(env, rnd, Config(), prefix=prefix)
+            t = rnd.choice(g.types) if rnd.random() < 0.4 else g.types[0]
+            f = g.gen(t, rnd.randint(1, 4))
+            if not env.stc.get_type(f).is_bool_type():
+                f = env.formula_manager.Equals(f, f) if rnd.random() < 0.3 else env.formula_manager.EqualsOrIff(f, g.gen(env.stc.get_type(f), 1))
         stats["formulas"] += 1
         chk.count(("c09", tocoq.skey(f)), nontrivial=len(f.args()) > 0)
         backs = []
@@ -291,11 +332,15 @@ def run(tier):
                 culprit = sorted(set(op.op_to_str(x.node_type()) for x in tocoq.topo([f])) - set(op.op_to_str(x.node_type()) for x in tocoq.topo([h])))
                 if isinstance(h, FNode) and tocoq.skey(h) == tocoq.skey(f):
                     culprit = ["quantifier-variable-order"]
+                elif isinstance(h, FNode) and string_constants(h) != string_constants(f):
+                    culprit = ["string-constant"]
+                    stats["string_constant_failures"] = stats.get("string_constant_failures", 0) + 1
                 chk.violation({"kind": "input", "what": "parse(print(f)) is not f", "formula": f.serialize()[:800], "text": text[:3000],
                                "parsed_back": h.serialize()[:800] if isinstance(h, FNode) else repr(h), "daggify": dag,
                                "operators_lost": culprit},
                               key="roundtrip:" + ("+".join(culprit) if culprit else hashlib.md5(text.encode()).hexdigest()[:10]))
-        if all(b is not None and isinstance(b, FNode) for b in backs) and len(cases) < (300 if tier == "quick" else 3000):
+        ascii_strings = all(ord(ch) < 128 for v in string_constants(f) for ch in v)       # the Coq models are byte-level
+        if all(b is not None and isinstance(b, FNode) for b in backs) and ascii_strings and len(cases) < (400 if tier == "quick" else 3000):
             cases.append((f, backs[0], backs[1]))
         hr_check(chk, env, f, stats)
         if not has_array_value(f) and len(hr_cases) < (300 if tier == "quick" else 3000):
